@@ -37,16 +37,21 @@ def scrambled(ai, names, values, key_salt):
         d = {}
         for pos in ai.positions():
             t, l, s = ai.times[pos[0]], ai.leads[pos[1]], ai.locs[pos[2]][0]
-            k = (int(t // 3600) * 7 + int(l) * 13 + int(s) * 29 + fi * 31 + key_salt * 17) % len(values)
+            k = (int(t // 3600) * 7 + int(l) * 13 + int(s) * 29 + fi * 31 + key_salt * 17) % len(values)      # injective enough on the small grids used
             d[pos] = values[k]
         ai.fields[n] = d
 
 
-def base_pair(seed):
-    """A has an extra time, B an extra location and an extra lead time; observations differ between files"""
+def base_pair(seed, near=False):
+    """A has an extra time, B an extra location and an extra lead time; observations differ between files.
+    near=True: coordinates that differ by less than any plausible relative tolerance (hourly runs, 7-digit station ids)"""
     locs = gen.std_locs(4, seed)
     tA = [T0, T0 + 6 * 3600, T0 + DAY, T0 + 2 * DAY]
     tB = [T0, T0 + 6 * 3600, T0 + DAY]
+    if near:
+        locs = [(1000231 + k, l[1], l[2], l[3]) for k, l in enumerate(locs)]
+        tA = [T0, T0 + 3600, T0 + 7200, T0 + 10800]
+        tB = [T0, T0 + 3600, T0 + 7200]
     lA = [0.0, 6.0]
     lB = [0.0, 6.0, 12.0]
     sA = locs[:3]
@@ -73,7 +78,7 @@ def permute(seq, perm):
 def h_dims(ctx):
     seed = core.seed()
     via = ctx.params["via"]
-    (tA, lA, sA), (tB, lB, sB) = base_pair(seed)
+    (tA, lA, sA), (tB, lB, sB) = base_pair(seed, near=bool(ctx.params.get("near")))
     inputs = []
     differ = False
     for name, (t, l, s), salt in (("A", (tA, lA, sA), 1), ("B", (tB, lB, sB), 2)):
@@ -83,7 +88,7 @@ def h_dims(ctx):
         if ctx.params.get("only_one") and name == "B":
             pass
         ai = gen.AInput(name, permute(t, pt), permute(l, pl), permute(s, ps))
-        scrambled(ai, ["obs", "fcst"], values(seed), salt)
+        scrambled(ai, ["obs", "fcst"] if not (name == "B" and ctx.params.get("b_no_obs")) else ["fcst"], values(seed), salt)
         inputs.append(ai)
     A, B = inputs
     differ = (A.times[:3] != B.times[:3]) or (A.leads[:2] != B.leads[:2]) or ([x[0] for x in A.locs[:3]] != [x[0] for x in B.locs[:3]])
@@ -94,9 +99,11 @@ def h_dims(ctx):
     elif opt == "tods":
         kw["tods"] = [0]
     elif opt == "times":
-        kw["times"] = [T0 + DAY, T0]
+        kw["times"] = [tB[2], tB[0]]
     elif opt == "tods6":
         kw["tods"] = [6]
+    if ctx.params.get("near") and opt == "tods6":
+        kw["tods"] = [1]
     ref = RD.RefData(inputs, **kw)
     kind, data, site, out = CD.make_data(inputs, via=via, subdir="c02dims", **kw)
     if kind != "ok":
@@ -323,6 +330,8 @@ def plan(tier):
     q = tier == "quick"
     p = [("dims-mem", h_dims, {"via": "mem", "options": ["none", "dates", "tods", "times"]}),
          ("dims-nc", h_dims, {"via": "nc", "options": ["none", "tods"] if not q else ["tods"], "only_one": q}),
+         ("dims-borrowed-obs", h_dims, {"via": "mem", "options": ["none"], "b_no_obs": True}),
+         ("dims-near", h_dims, {"via": "mem", "options": ["none", "times"], "near": True}),
          ("rows8", h_rows, {"sparse": False}), ("rows6-sparse", h_rows, {"sparse": True}),
          ("repeat-mem", h_repeat, {"via": "mem"}), ("repeat-nc", h_repeat, {"via": "nc"}),
          ("order2", h_order, {"n": 2}), ("order3", h_order, {"n": 3}),
